@@ -49,3 +49,15 @@ CLAIMS["C10"] = (
     "Decides rules R10.1a-e and R10.4. Not decided: run-time panics without a panic statement other than the narrow-arithmetic pattern (nil dereferences, slice bounds in general, atomic.Value type mismatches), resource exhaustion, panics inside the standard library/protobuf. The panic table (R10.1e) is confirmed by reading; its reasons are listed in the evidence." + COMMON_NOTE,
     "constant propagation over go/ssa (finite protocol domain), provenance slices of returned errors, panic-site inventory with a confirmed table, CFG reachability",
     "3/C10")
+
+CLAIMS["C08"] = (
+    "Constants and structure of the time-slot machinery: one rounding definition shared by the salt and the cache epoch, exactly the previous/current/next slot, the sender on the current slot and the receiver trying all three; the minute-granular timestamp with margin 1, where the generic WithinRange instance used on the unsigned minute counter is folded for differences -3..+3; cache entries tagged with and reused only for the slot they were derived for. The arithmetic that follows from these constants (|d|<=60 s implies adjacent slots/minutes; >=2 min and >=240 s are refused) is recorded in the evidence, not executed.",
+    "Decides rules R08.1-R08.3. Not decided: the continuum of instants and skews, cache age/jitter behaviour, time.Time.Round itself." + COMMON_NOTE,
+    "constant folding of go/ssa (incl. generic instance with a local memory model), structural sibling comparison, path-sensitive reachability",
+    "3/C08")
+
+CLAIMS["C09"] = (
+    "Three-way agreement between writer, reader and the published protocol, with the document (re-read on every run) and a frozen transcription as oracles external to the code: metadata layouts extracted as (offset,width,byte order,field) tables from each Marshal and each Unmarshal, protocol numbering, key-derivation constants and structure, user-hint construction, nonce progression on TCP and nonce sharing on UDP, the session payload limit, the low-entropy parameter table, rotation validity set and rotation direction (folded), and the UDP-associate frame. A symmetric edit passes every self-consistency test; this check compares against the specification.",
+    "Decides rules R09.1-R09.5, R09.7, R09.8. Not decided: emitted values beyond placement and derivation, the AEAD itself, the segment assembly order (R09.6 of the design was not built), run-time interoperability." + COMMON_NOTE,
+    "wire-table extraction from go/ssa, Markdown table reader for docs/protocol.md, constant folding, structural idiom checks",
+    "3/C09")
